@@ -18,7 +18,7 @@
 (*    the encoder's result goes to a variable of its "own" | to the         *)
 (*    "captured" one, which a failing encoder sets to nil)                  *)
 (*  - which media types can be written back (Encoders) next to which can    *)
-(*    be decoded (all of MTs)                                               *)
+(*    be decoded (all of MTs), and what happens to the others (NoEncoder)   *)
 (*  - what `defer req.Body.Close()` closes (CloseBinding: the body          *)
 (*    installed "at_defer" time = the drained original | the one installed  *)
 (*    "at_return" time = the restored one), for bodies that honour Close    *)
@@ -36,6 +36,7 @@ EXTENDS Naturals, Sequences, FiniteSets, TLC
 CONSTANTS EncoderBuffer,   \* "fresh" | "pooled"
           EncodeVar,       \* "own" | "captured"
           Encoders,        \* media types with a registered body encoder
+          NoEncoder,       \* a default was set and the media type has no encoder: "reject" the request | "forward" it as sent
           CloseBinding     \* "at_defer" | "at_return"
 
 Orig(r) == <<"orig", r>>          \* the bytes the client sent in request r
@@ -110,7 +111,9 @@ ParamsPhase(g, r, c) ==
 (* and when a default was set: encode, install the new body                                                            *)
 Rewrite(g, r, c) ==
    LET cell == g.x[r].data IN
-   IF c.mt \notin Encoders
+   IF c.mt \notin Encoders /\ NoEncoder = "forward"
+   THEN [g EXCEPT !.x[r].verdict = "ok"]        \* accepted, the body stays the one received (its defaults are not in it)
+   ELSE IF c.mt \notin Encoders
    THEN \* encodeBody fails: "rewriting failed"; `data, err = encodeBody(...)` has set data to nil on the way
         [g EXCEPT !.x[r].verdict = "error", !.cells[cell] = IF EncodeVar = "captured" THEN NoBuf ELSE @]
    ELSE LET new == IF c.hasDef THEN Dflt(r) ELSE Orig(r)      \* (reenc only: the same value written again)
